@@ -304,7 +304,7 @@ CLAIMED = {
               "moved, inner nodes start at their first child's start (the cursor when they have none) and end at the cursor, "
               "all carry the file name installed before parsing; nodes synthesised by the optimizer take the location of the "
               "node they replace; Position::operator++ starts a new line at column 1 after a line feed and advances the "
-              "column otherwise, operator-- is its inverse, the cursor starts at 1:1. every node the optimizer builds carries the location of the node it replaces (location, text and children taken from the same node; folded constants from the pass's own node; compiled loops from their original node). Not decided: numeric agreement of every "
+              "column otherwise, operator-- is its inverse, the cursor starts at 1:1. every node the optimizer builds carries the location of the node it replaces (location, text and children taken from the same node; folded constants from the pass's own node; compiled loops from their original node). no handler between the failing node and the caller swallows or replaces an eval_error in flight (C10 R10.1 re-decided as R20.6). Not decided: numeric agreement of every "
               "reported position with ground truth on generated programs."),
         technique="who-may-call + handler-shape rule, origin (def-use) rules for location arguments of every node construction, effect-table check of the cursor operators",
         ref="DESIGN.md section 4 C20"),
